@@ -2,6 +2,7 @@
 for the first step of every path; products of populations of a few hundred overflow, the adaptive tau-leap gets a negative
 variance of the rate change, a negative leap size and raises ValueError('lam < 0 or lam is NaN') instead of returning a path.
 (int32 is numpy's default integer on Windows before numpy 2, and what many file readers produce.)
+Repaired in pygom by fix ea55e76 (_getEvalParam hands fixed-width numpy integers over as Python integers).
 exit 1 when the defect is present, 0 otherwise.   PYTHONPATH=<tree>/src /venv/bin/python findings/C04_int32_state_overflow_demo.py"""
 import sys, warnings
 import numpy as np
